@@ -507,4 +507,58 @@ example : ∃ s, run (init false) [.clone 0, .opStart 0, .take 0, .poll 0, .drop
 example : ∃ s, run (init true) [.clone 0, .take 0, .pSwap 0, .pTry1 0, .dropCheck 1, .pReg 0, .dropDec 1, .pTry2 0] = some s ∧
     s.released = 1 ∧ s.delivered = 1 := ⟨_, rfl, by decide⟩
 
+/-! ## 4. An operation holding k shared descriptors (polling driver `Splice`: k = 2) -/
+
+section MultiWait
+open Compio.MultiWait
+
+/-- Cancelling an op that waits on k ≥ 1 descriptors removes it from ALL k interest queues, emits exactly
+one cancelled entry, leaves every other op's interests alone, and — once the future is gone and the entry
+is reaped — no key clone is left: the op is dropped and all k descriptor references are released. -/
+theorem cancel_releases_all (s0 : MultiWait.St) (key : Nat) (fds : List Nat) (hk : fds ≠ [])
+    (hfresh : keyRefs s0 key = 0) :
+    let s1 := cancel (dropFuture (push s0 key fds) key) key fds
+    (∀ fd, (fd, key) ∉ s1.reg) ∧ s1.completed.count key = 1 ∧
+      s1.reg = s0.reg ∧ keyRefs (reap s1 key) key = 0 := by
+  have h0 : (s0.reg.filter (·.2 == key)) = [] ∧ s0.completed.count key = 0 ∧ s0.futures.count key = 0 := by
+    unfold keyRefs at hfresh
+    have : (s0.reg.filter (·.2 == key)).length = 0 := by omega
+    exact ⟨List.length_eq_zero_iff.mp this, by omega, by omega⟩
+  obtain ⟨hr, hc, hf⟩ := h0
+  have hnone : ∀ e ∈ s0.reg, mine key fds e = false := by
+    intro e he
+    have := (List.filter_eq_nil_iff.mp hr) e he
+    simp at this
+    simp [mine, this]
+  have hkeep : s0.reg.filter (fun e => !mine key fds e) = s0.reg := by
+    rw [List.filter_eq_self]
+    intro e he
+    simp [hnone e he]
+  have hany : (s0.reg ++ fds.map (·, key)).any (mine key fds) = true := by
+    cases fds with
+    | nil => exact absurd rfl hk
+    | cons a t =>
+      simp only [List.any_append, Bool.or_eq_true]
+      right
+      simp [mine]
+  have hreg : (cancel (dropFuture (push s0 key fds) key) key fds).reg = s0.reg := by
+    simp [cancel, dropFuture, push, List.filter_append, hkeep, filter_map_key]
+  have hcnotin : key ∉ s0.completed := List.count_eq_zero.mp hc
+  have hfnotin : key ∉ s0.futures := List.count_eq_zero.mp hf
+  refine ⟨?_, ?_, hreg, ?_⟩
+  · intro fd hmem
+    rw [hreg] at hmem
+    have := (List.filter_eq_nil_iff.mp hr) (fd, key) hmem
+    simp at this
+  · simp [cancel, dropFuture, push, hany, hc]
+  · unfold keyRefs
+    simp only [reap]
+    rw [hreg, hr]
+    simp [cancel, dropFuture, push, hany, hc, hf]
+
+
+example : keyRefs (reap (cancel (dropFuture (push MultiWait.init 7 [3, 4]) 7) 7 [3, 4]) 7) 7 = 0 := by decide
+
+end MultiWait
+
 end Compio.Props.C06
